@@ -162,3 +162,186 @@ def fixed_grid_runner(cfg):
     fn = jax.jit(run)
     _CACHE[key] = fn
     return fn
+
+
+# ------------------------------------------------------------------------------------
+# Recording proxies (public extension points only: the adaptive loop is written against
+# the Solver / error-estimator protocols, so wrapping objects observe every call).
+
+
+class Recorder:
+    def __init__(self):
+        self.events = []
+
+    def emit(self, kind, *vals):
+        def cb(*a):
+            self.events.append((kind,) + tuple(np.asarray(x).tolist() for x in a))
+
+        jax.debug.callback(cb, *vals, ordered=True)
+
+    def take(self):
+        jax.effects_barrier()
+        ev, self.events = self.events, []
+        return ev
+
+
+class RecSolver:
+    def __init__(self, inner, rec):
+        self.inner, self.rec = inner, rec
+
+    def __repr__(self):
+        return f"RecSolver({self.inner!r})"
+
+    def init(self, t, u, *, damp):
+        return self.inner.init(t=t, u=u, damp=damp)
+
+    def step(self, state, *, dt, damp):
+        self.rec.emit("attempt", state.t, dt, state.num_steps)
+        return self.inner.step(state=state, dt=dt, damp=damp)
+
+    def interpolate_fwd(self, *, t, interp_from, interp_to):
+        self.rec.emit("interp", t, interp_from.t, interp_to.t)
+        return self.inner.interpolate_fwd(t=t, interp_from=interp_from, interp_to=interp_to)
+
+    def interpolate_fwd_at_t1(self, *, t, interp_from, interp_to):
+        self.rec.emit("interp_at", t, interp_from.t, interp_to.t)
+        return self.inner.interpolate_fwd_at_t1(t=t, interp_from=interp_from, interp_to=interp_to)
+
+    @property
+    def is_suitable_for_save_at(self):
+        return self.inner.is_suitable_for_save_at
+
+    @property
+    def is_suitable_for_save_every_step(self):
+        return self.inner.is_suitable_for_save_every_step
+
+    def userfriendly_output(self, *, solution0, solution, solution1):
+        return self.inner.userfriendly_output(solution0=solution0, solution=solution, solution1=solution1)
+
+    def offgrid_marginals(self, t, *, solution):
+        return self.inner.offgrid_marginals(t, solution=solution)
+
+
+class RecError:
+    def __init__(self, inner, rec):
+        self.inner, self.rec = inner, rec
+
+    def init_error(self):
+        return self.inner.init_error()
+
+    def estimate_error_norm(self, state, previous, proposed, *, dt, atol, rtol, damp):
+        ep, st = self.inner.estimate_error_norm(state, previous, proposed, dt=dt, atol=atol, rtol=rtol, damp=damp)
+        self.rec.emit("error", previous.t, dt, ep)
+        return ep, st
+
+
+def make_error(ssm, cfg, vf):
+    e = cfg.get("error", {})
+    constraint = make_constraint(ssm, {**cfg, "lin": e.get("lin", cfg["lin"])}, vf)
+    norm = None
+    if e.get("norm") == "rms_then_scale":
+        norm = probdiffeq.error_norm_rms_then_scale()
+    kw = dict(constraint=constraint, error_norm=norm, re_linearize_before_error=bool(e.get("relin", False)),
+              error_per_unit_step=bool(e.get("per_unit_step", False)))
+    if e.get("kind", "residual") == "state":
+        return probdiffeq.error_state_std(**kw, derivative_idx=int(e.get("derivative_idx", 0)))
+    return probdiffeq.error_residual_std(**kw)
+
+
+def make_control(cfg):
+    c = cfg.get("control", {"kind": "integral"})
+    kw = {k: c[k] for k in ("safety", "factor_min", "factor_max") if k in c}
+    if c.get("kind", "integral") == "pi":
+        for k in ("exponent_integral", "exponent_proportional"):
+            if k in c:
+                kw[k] = c[k]
+        return ivpsolve.control_proportional_integral(**kw)
+    return ivpsolve.control_integral(**kw)
+
+
+def accepted_steps(events):
+    """[(t_from, dt)] of accepted attempts, from ('attempt', t, dt, n) / ('error', t, dt, ep)."""
+    errs = [e for e in events if e[0] == "error"]
+    return [(e[1], e[2]) for e in errs if e[3] >= 1.0], errs
+
+
+def _solution_outputs(cfg, sol):
+    mean, cov = sol.u.to_multivariate_normal()
+    out = dict(t=sol.t, mean=mean, cov=cov, scale=sol.output_scale, num_steps=sol.num_steps)
+    if cfg["strategy"] != "filter":
+        fm, fc = sol.solution_full.filtering.to_multivariate_normal()
+        out["filt_mean"], out["filt_cov"] = fm, fc
+        post = sol.solution_full.posterior
+        out["post_marg_mean"], out["post_marg_cov"] = post.marginal.to_multivariate_normal()
+        cond = jax.vmap(lambda c: c.preconditioner_apply())(post.conditional)
+        out["bw_A"], out["bw_b"], out["bw_L"] = cond.A, cond.noise.mean_flat, cond.noise.cholesky_flat
+    return out
+
+
+def adaptive_save_at_runner(cfg):
+    """(C, tc, save_at, atol, rtol, dt0, eps, damp, base, init_std) -> (outputs, events)."""
+    key = ("save_at",) + structure_key(cfg) + (("num_save", str(cfg.get("num_save"))), ("clip", str(cfg.get("clip"))),
+                                                ("control", str(cfg.get("control"))), ("error", str(cfg.get("error"))),
+                                                ("terminal", str(cfg.get("terminal"))))
+    if key in _CACHE:
+        return _CACHE[key]
+    field = make_field(cfg)
+    fact = cfg["fact"]
+    rec = Recorder()
+
+    def run(C, tc, save_at, atol, rtol, dt0, eps, damp, base, init_std):
+        ssm = lib.ssm(fact)
+        vf = make_ode(field, C, cfg.get("jac", "materialize"))
+        tcoeffs = [tc[i] for i in range(cfg["n"])]
+        prior = make_prior(ssm, cfg, tcoeffs, base, init_std)
+        constraint = make_constraint(ssm, cfg, vf)
+        cinit = make_constraint(ssm, cfg, vf) if cfg.get("cinit") else None
+        solver = RecSolver(make_solver(ssm, cfg, constraint, cinit), rec)
+        error = RecError(make_error(ssm, cfg, vf), rec)
+        control = make_control(cfg)
+        if cfg.get("terminal"):
+            solve = ivpsolve.solve_adaptive_terminal_values(solver, error, control=control, clip_dt=bool(cfg.get("clip", True)))
+            sol = solve(prior, t0=save_at[0], t1=save_at[-1], atol=atol, rtol=rtol, dt0=dt0, eps=eps, damp=damp)
+            sol = jax.tree.map(lambda s: s[None], sol)
+        else:
+            solve = ivpsolve.solve_adaptive_save_at(solver=solver, error=error, control=control, clip_dt=bool(cfg.get("clip", False)), warn=False)
+            sol = solve(prior, save_at=save_at, atol=atol, rtol=rtol, dt0=dt0, eps=eps, damp=damp)
+        return _solution_outputs(cfg, sol) if not cfg.get("terminal") else dict(
+            t=sol.t, mean=sol.u.to_multivariate_normal()[0], cov=sol.u.to_multivariate_normal()[1], scale=sol.output_scale, num_steps=sol.num_steps)
+
+    jitted = jax.jit(run)
+
+    def call(*args):
+        rec.take()
+        out = jitted(*args)
+        out = jax.tree.map(np.asarray, out)
+        return out, rec.take()
+
+    _CACHE[key] = call
+    return call
+
+
+def save_every_step_runner(cfg):
+    """test_util.solve_adaptive_save_every_step (native Python loop) with recording."""
+    from probdiffeq.util import test_util
+
+    field = make_field(cfg)
+    fact = cfg["fact"]
+    rec = Recorder()
+
+    def call(C, tc, t0, t1, atol, rtol, dt0, eps, damp, base, init_std):
+        rec.take()
+        ssm = lib.ssm(fact)
+        vf = make_ode(field, jnp.asarray(C), cfg.get("jac", "materialize"))
+        tcoeffs = [jnp.asarray(tc[i]) for i in range(cfg["n"])]
+        prior = make_prior(ssm, cfg, tcoeffs, base, init_std)
+        constraint = make_constraint(ssm, cfg, vf)
+        cinit = make_constraint(ssm, cfg, vf) if cfg.get("cinit") else None
+        solver = RecSolver(make_solver(ssm, cfg, constraint, cinit), rec)
+        error = RecError(make_error(ssm, cfg, vf), rec)
+        solve = test_util.solve_adaptive_save_every_step(solver, error, control=make_control(cfg), clip_dt=bool(cfg.get("clip", False)))
+        sol = solve(prior, t0=t0, t1=t1, atol=atol, rtol=rtol, dt0=dt0, eps=eps, damp=damp)
+        out = jax.tree.map(np.asarray, _solution_outputs(cfg, sol))
+        return out, rec.take(), (solver.inner, sol)
+
+    return call
